@@ -20,11 +20,24 @@ in total, not a nesting depth); every theorem above was re-proved for it with un
 D453 and the model with PATH_MAX at every `os.lstat` / `os.stat` - `C10_pathmax_verified_partial` and
 `C10_pathmax_safe` (safe open from the samestat + fixed-point cross-check, under the decidable
 hypothesis that the two `realpath` answers are link-free, evaluated on every generated case).
+
+Round 5: that hypothesis was meant to follow from the fixed-point condition of D453 ("a fixed point of the
+blind realpath that is shorter than PATH_MAX and that the kernel resolves is link-free").  It does NOT: a
+non-strict `realpath` reports a loop by returning its input, and an entry it cannot lstat followed by
+lexically stripped ".." can lead it back to the link it is resolving (D454, a genuine escape).  The
+check was repaired once more (prefix walk `noLinkOn` over both answers) and `C10_pathmax_safe_full` proves
+the safe open from the check alone.  `C10_blind_safe` generalises it to ANY restriction of `os.lstat` /
+`os.stat` / `open` (`Sys`, `SysOK`: ENAMETOOLONG, EACCES, whatever errno), `C10_eacces_safe` is the
+instance with per-directory search permissions (`walkA`, `sysA`; the PATH_MAX model is the instance
+`sysP`: `checkContainmentP_eq_V`).  `C10_world_chdir_safe` extends the bytes-provenance half of
+`C10_world_safe` to histories with `os.chdir`.
 -/
 import IrVerif.Lemmas.PathReal
 import IrVerif.Lemmas.PathLoad
 import IrVerif.Lemmas.PathCall
 import IrVerif.Lemmas.PathWorld
+import IrVerif.Lemmas.PathNoLink
+import IrVerif.Lemmas.PathSys
 namespace IrVerif.Path
 
 /-- **C10_lexical**: when check 1 (_core.py:789-799) passes, the components of
@@ -720,7 +733,11 @@ theorem ex_guarded : guardedOpen exFS 40 40 (render []) [] "/b".toList "f".toLis
       rw [hp, r1, r2, q1, q2]
       have e1 : kresolve exFS 40 [] (render [['b'], ['f']]) true = some [['b'], ['f']] := hk
       have e2 : kresolve exFS 40 [] (render [['b']]) true = some [['b']] := hkb
-      rw [hk, hkb, e1, e2]
+      have n1 : noLinkOn (lstat exFS 40 []) (render [['b'], ['f']]) = true :=
+        noLinkOn_complete exFS 40 [] _ ⟨exFS_bf, Node.file 1, by decide, by intro t; simp⟩
+      have n2 : noLinkOn (lstat exFS 40 []) (render [['b']]) = true :=
+        noLinkOn_complete exFS 40 [] _ ⟨exFS_b.1, Node.dir, by decide, by intro t; simp⟩
+      rw [hk, hkb, e1, e2, n1, n2]
       decide
     unfold checkContainment
     rw [if_neg (by decide), if_neg (by rw [c1]; simp), if_neg (by rw [c2]; simp),
@@ -1676,7 +1693,7 @@ theorem C10_pathmax_verified_partial (fs : FS) (kfuel fuel : Nat) (cwdS : Str) (
         split at hv
         · rename_i hall
           simp only [Bool.and_eq_true, decide_eq_true_eq] at hall
-          obtain ⟨⟨⟨⟨⟨hab, hcd⟩, hfp⟩, hfb⟩, hn⟩, hr⟩ := hall
+          obtain ⟨⟨⟨⟨⟨⟨⟨hab, hcd⟩, hfp⟩, hfb⟩, _⟩, _⟩, hn⟩, hr⟩ := hall
           obtain ⟨lb, hbs⟩ := P_some _ _ hb2
           obtain ⟨_, hcs⟩ := P_some _ _ hc2
           obtain ⟨ld, hds⟩ := P_some _ _ hd2
@@ -1839,5 +1856,578 @@ theorem C10_pathmax_safe (fs : FS) (kfuel fuel : Nat) (cwdS : Str) (cwd : Loc) (
   have := contained_comps _ _ hcont
   rw [← hbl, ← hlr] at this
   exact this
+
+end IrVerif.Path
+
+/-! ### the repaired check establishes link-freeness itself (D454): no hypothesis on the answers -/
+namespace IrVerif.Path
+
+/-- a pass of the check (as repaired after D454) on an existing file includes the two prefix walks -/
+theorem checkContainmentP_nolink (fs : FS) (kfuel fuel : Nat) (cwdS : Str) (cwd : Loc) (base loc : Str)
+    (i : Nat) (reg : Bool)
+    (hv : checkContainmentP fs kfuel fuel cwdS cwd base loc = Verdict.pass) (hb : base ≠ [])
+    (ho : openFile fs kfuel cwd (tensorPath base loc) = some (i, reg)) :
+    noLinkOn (lstatP fs kfuel cwd) (realpathP fs kfuel fuel cwdS cwd (tensorPath base loc)) = true ∧
+    noLinkOn (lstatP fs kfuel cwd) (realpathP fs kfuel fuel cwdS cwd base) = true := by
+  obtain ⟨l, hk, hkind⟩ := openFile_some _ _ _ _ _ _ ho
+  have hlen : ¬ PATH_MAX ≤ (tensorPath base loc).length := by
+    intro h; unfold openFile at ho; simp [h] at ho
+  unfold checkContainmentP at hv
+  simp only [hb, if_false] at hv
+  split at hv
+  · exact absurd hv (by simp)
+  split at hv
+  · exact absurd hv (by simp)
+  split at hv
+  · exact absurd hv (by simp)
+  have hsf : statFileP fs kfuel cwd (tensorPath base loc) = some (fs.nlink i, reg) := by
+    unfold statFileP statFile
+    simp only [hlen, if_false, hk]
+    rcases hkind with ⟨hr, hg⟩ | ⟨hr, hg⟩ <;> simp [hg, hr]
+  rw [hsf] at hv
+  simp only at hv
+  split at hv
+  · split at hv
+    · rename_i hall
+      simp only [Bool.and_eq_true, decide_eq_true_eq] at hall
+      exact ⟨hall.1.1.1.2, hall.1.1.2⟩
+    · exact absurd hv (by simp)
+  · exact absurd hv (by simp)
+
+/-- **C10_pathmax_safe_full** (supersedes `C10_pathmax_safe`: its hypothesis on the two answers of
+`os.path.realpath` is gone).  The check as repaired after D451 / D452 / D453 / D454, in the model with
+PATH_MAX at every `os.lstat` / `os.stat` (an entry `os.path.realpath` cannot lstat is taken for a
+non-link, and a loop it believes to see makes it return its input unresolved).  When the check passes
+and the open that follows reaches the inode `i`, then with sound link counts and an absolute
+`os.getcwd()`: `i` is a regular file with at most one link; its location `l` is the one the kernel
+resolves `join(base, loc)` to and is spelled by the resolved path; `l` is reached through real
+directories only; and `l` lies component-wise below the directory the kernel resolves the base
+directory to, which is reached through real directories only as well.  Why: the prefix walk of check 3
+succeeded with an `os.lstat` that is a restriction of the kernel's (`noLinkPrefix_sound`), so the
+answers - absolute normal forms - are resolved by the kernel to exactly the locations they spell;
+samestat and the link count tie those to what `open(path)` and `stat(base_dir)` reach.
+The statement "a fixed point of the blind realpath that the kernel resolves is link-free", which the
+previous round left open, is FALSE (D454); this theorem is about the check that no longer relies on it.
+No assumption on lengths, on the recursion bound, or on what the working directory names. -/
+theorem C10_pathmax_safe_full (fs : FS) (kfuel fuel : Nat) (cwdS : Str) (cwd : Loc) (base loc : Str)
+    (i : Nat) (reg : Bool) (hs : LinkCountSound fs) (hcwd : isabs cwdS = true)
+    (hv : checkContainmentP fs kfuel fuel cwdS cwd base loc = Verdict.pass) (hb : base ≠ [])
+    (ho : openFile fs kfuel cwd (tensorPath base loc) = some (i, reg)) :
+    ∃ l, kresolve fs kfuel cwd (tensorPath base loc) true = some l ∧ fs.get l = some (Node.file i) ∧
+      fs.nlink i ≤ 1 ∧ Chain fs l ∧
+      l = comps (realpathP fs kfuel fuel cwdS cwd (tensorPath base loc)) ∧
+      (∀ bl, kresolve fs kfuel cwd base true = some bl → fs.get bl = some Node.dir →
+        bl <+: l ∧ Chain fs bl) := by
+  obtain ⟨hreg, hn, _, _, hsid, ⟨c, hcb, hcbr⟩, _, _, hcont⟩ :=
+    C10_pathmax_verified_partial fs kfuel fuel cwdS cwd base loc i reg hv hb ho
+  obtain ⟨n1, n2⟩ := checkContainmentP_nolink fs kfuel fuel cwdS cwd base loc i reg hv hb ho
+  obtain ⟨l, hk, hkind⟩ := openFile_some _ _ _ _ _ _ ho
+  have hg : fs.get l = some (Node.file i) := by
+    rcases hkind with ⟨_, hg⟩ | ⟨hr, _⟩
+    · exact hg
+    · rw [hreg] at hr; exact absurd hr (by simp)
+  -- an answer of realpath is an absolute normal form; the walk shows the location it spells is real
+  have key : ∀ x : Str, noLinkOn (lstatP fs kfuel cwd) (realpathP fs kfuel fuel cwdS cwd x) = true →
+      RealLoc fs (comps (realpathP fs kfuel fuel cwdS cwd x)) ∧
+      kresolve fs kfuel cwd (realpathP fs kfuel fuel cwdS cwd x) true =
+        some (comps (realpathP fs kfuel fuel cwdS cwd x)) := by
+    intro x hx
+    obtain ⟨k, hk1, hform, hclean⟩ := abspath_absStr cwdS
+      (joinRealP fs kfuel cwd fuel (if isabs x then ['/'] else [])
+        (splitSep (if isabs x then x.tail else x)) []).1 hcwd
+    have hrp : realpathP fs kfuel fuel cwdS cwd x = abspath cwdS
+      (joinRealP fs kfuel cwd fuel (if isabs x then ['/'] else [])
+        (splitSep (if isabs x then x.tail else x)) []).1 := rfl
+    rw [← hrp] at hform hclean
+    generalize realpathP fs kfuel fuel cwdS cwd x = s at *
+    have hrl : RealLoc fs (comps s) := by
+      refine noLinkPrefix_sound fs kfuel cwd _ (lstatRestr_P fs kfuel cwd) k hk1 _ (comps s) rfl hclean
+        (s.length + 1) ?_
+      rw [← hform]; exact hx
+    refine ⟨hrl, ?_⟩
+    have := kresolve_of_realLoc fs kfuel cwd k hk1 (comps s) hrl
+    rwa [← hform] at this
+  obtain ⟨hrl1, hk1⟩ := key _ n1
+  obtain ⟨hrl2, hk2⟩ := key _ n2
+  obtain ⟨lr, hkr, hgr⟩ := statId_ino fs kfuel cwd _ i hsid
+  rw [hk1] at hkr
+  cases hkr
+  have hll : l = comps (realpathP fs kfuel fuel cwdS cwd (tensorPath base loc)) := by
+    apply Classical.byContradiction
+    intro hne
+    have := hs l _ i hne hg hgr
+    omega
+  refine ⟨l, hk, hg, hn, by rw [hll]; exact hrl1.1, hll, ?_⟩
+  intro bl hkb hdir
+  have hsb : statId fs kfuel cwd base = some (StatId.dir bl) := by
+    unfold statId; simp [hkb, hdir]
+  rw [hsb] at hcb
+  cases hcb
+  obtain ⟨hkbr, _⟩ := statId_dir fs kfuel cwd _ bl hcbr
+  rw [hk2] at hkbr
+  cases hkbr
+  refine ⟨?_, hrl2.1⟩
+  rw [hll]
+  exact contained_comps _ _ hcont
+
+end IrVerif.Path
+
+/-! ### whatever makes the system calls fail (ENAMETOOLONG, EACCES, ...): the repaired check fails closed -/
+namespace IrVerif.Path
+
+/-- what a pass of `checkContainmentV` followed by a successful open gives, before any reasoning about
+the tree: the facts the conjunction of check 3 consists of, at kernel level -/
+theorem checkContainmentV_pass (fs : FS) (kfuel : Nat) (cwd : Loc) (sys : Sys) (hsys : SysOK fs kfuel cwd sys)
+    (fuel : Nat) (cwdS : Str) (base loc : Str) (i : Nat) (reg : Bool)
+    (hv : checkContainmentV sys fuel cwdS base loc = Verdict.pass) (hb : base ≠ [])
+    (ho : sys.openF (tensorPath base loc) = some (i, reg)) :
+    reg = true ∧ fs.nlink i ≤ 1 ∧
+    statId fs kfuel cwd (realpathV sys fuel cwdS (tensorPath base loc)) = some (StatId.ino i) ∧
+    (∃ c, statId fs kfuel cwd base = some c ∧ statId fs kfuel cwd (realpathV sys fuel cwdS base) = some c) ∧
+    noLinkOn sys.lstat (realpathV sys fuel cwdS (tensorPath base loc)) = true ∧
+    noLinkOn sys.lstat (realpathV sys fuel cwdS base) = true ∧
+    contained (realpathV sys fuel cwdS base) (realpathV sys fuel cwdS (tensorPath base loc)) = true := by
+  have hoK := hsys.open_r _ _ ho
+  obtain ⟨l, hk, hkind⟩ := openFile_some _ _ _ _ _ _ hoK
+  obtain ⟨hsfn, hsin⟩ := hsys.open_stat _ _ ho
+  -- what the kernel's stat of the opened string says
+  have hsfK : statFile fs kfuel cwd (tensorPath base loc) = some (fs.nlink i, reg) := by
+    unfold statFile
+    simp only [hk]
+    rcases hkind with ⟨hr, hg⟩ | ⟨hr, hg⟩ <;> simp [hg, hr]
+  have hsf : sys.statFile (tensorPath base loc) = some (fs.nlink i, reg) := by
+    cases hq : sys.statFile (tensorPath base loc) with
+    | none => exact absurd hq hsfn
+    | some x =>
+      have := hsys.statFile_r _ _ hq
+      rw [hsfK] at this
+      cases this; rfl
+  unfold checkContainmentV at hv
+  simp only [hb, if_false] at hv
+  split at hv
+  · exact absurd hv (by simp)
+  split at hv
+  · exact absurd hv (by simp)
+  split at hv
+  · exact absurd hv (by simp)
+  rename_i hcont
+  have hcont' : contained (realpathV sys fuel cwdS base) (realpathV sys fuel cwdS (tensorPath base loc)) = true := by
+    simpa using hcont
+  rw [hsf] at hv
+  simp only at hv
+  cases ha2 : sys.statId (tensorPath base loc) with
+  | none => exact absurd ha2 hsin
+  | some a =>
+    cases hb2 : sys.statId (realpathV sys fuel cwdS (tensorPath base loc)) with
+    | none => simp [ha2, hb2] at hv
+    | some b =>
+      cases hc2 : sys.statId base with
+      | none => simp [ha2, hb2, hc2] at hv
+      | some c =>
+        cases hd2 : sys.statId (realpathV sys fuel cwdS base) with
+        | none => simp [ha2, hb2, hc2, hd2] at hv
+        | some d =>
+          simp only [ha2, hb2, hc2, hd2] at hv
+          split at hv
+          · rename_i hall
+            simp only [Bool.and_eq_true, decide_eq_true_eq] at hall
+            obtain ⟨⟨⟨⟨⟨⟨⟨hab, hcd⟩, _⟩, _⟩, hn1⟩, hn2⟩, hn⟩, hr⟩ := hall
+            have haK := hsys.statId_r _ _ ha2
+            have hbK := hsys.statId_r _ _ hb2
+            have hcK := hsys.statId_r _ _ hc2
+            have hdK := hsys.statId_r _ _ hd2
+            subst hr
+            have hai : a = StatId.ino i := by
+              unfold statId at haK
+              simp only [hk] at haK
+              rcases hkind with ⟨_, hg⟩ | ⟨hr, _⟩
+              · simp only [hg, Option.some.injEq] at haK; exact haK.symm
+              · exact absurd hr (by simp)
+            refine ⟨rfl, hn, ?_, ⟨c, hcK, by rw [hdK, hcd]⟩, hn1, hn2, hcont'⟩
+            rw [hbK, ← hab, hai]
+          · exact absurd hv (by simp)
+
+/-- **C10_blind_safe**: the containment check as repaired after D451 - D454 fails closed WHATEVER makes
+the process's system calls fail.  `sys` is any restriction of the kernel's `os.lstat` / `os.stat` / `open`
+on the tree (`SysOK`: a call may fail where the kernel would resolve the path - ENAMETOOLONG, EACCES on an
+unsearchable directory, any other errno - but what it returns is what the kernel returns; an `open` that
+succeeds implies that `os.stat` of the same string does).  `os.path.realpath` runs over these calls and
+takes every entry it cannot examine for a non-link (and a loop it believes to see makes it return its
+input).  When the check passes and the open that follows reaches the inode `i`, then with sound link
+counts and an absolute `os.getcwd()`: `i` is a regular file with at most one link, its location `l` is
+the one the kernel resolves `join(base, loc)` to and is spelled by the resolved path, `l` is reached
+through real directories only, and `l` lies component-wise below the directory the kernel resolves the
+base directory to.  `C10_pathmax_safe_full` is the instance `sysP` (PATH_MAX only), `C10_eacces_safe`
+the instance `sysA` (PATH_MAX and search permissions). -/
+theorem C10_blind_safe (fs : FS) (kfuel : Nat) (cwd : Loc) (sys : Sys) (hsys : SysOK fs kfuel cwd sys)
+    (fuel : Nat) (cwdS : Str) (base loc : Str) (i : Nat) (reg : Bool)
+    (hs : LinkCountSound fs) (hcwd : isabs cwdS = true)
+    (hv : checkContainmentV sys fuel cwdS base loc = Verdict.pass) (hb : base ≠ [])
+    (ho : sys.openF (tensorPath base loc) = some (i, reg)) :
+    ∃ l, kresolve fs kfuel cwd (tensorPath base loc) true = some l ∧ fs.get l = some (Node.file i) ∧
+      fs.nlink i ≤ 1 ∧ Chain fs l ∧
+      l = comps (realpathV sys fuel cwdS (tensorPath base loc)) ∧
+      (∀ bl, kresolve fs kfuel cwd base true = some bl → fs.get bl = some Node.dir →
+        bl <+: l ∧ Chain fs bl) := by
+  obtain ⟨hreg, hn, hsid, ⟨c, hcb, hcbr⟩, n1, n2, hcont⟩ :=
+    checkContainmentV_pass fs kfuel cwd sys hsys fuel cwdS base loc i reg hv hb ho
+  obtain ⟨l, hk, hkind⟩ := openFile_some _ _ _ _ _ _ (hsys.open_r _ _ ho)
+  have hg : fs.get l = some (Node.file i) := by
+    rcases hkind with ⟨_, hg⟩ | ⟨hr, _⟩
+    · exact hg
+    · rw [hreg] at hr; exact absurd hr (by simp)
+  have key : ∀ x : Str, noLinkOn sys.lstat (realpathV sys fuel cwdS x) = true →
+      RealLoc fs (comps (realpathV sys fuel cwdS x)) ∧
+      kresolve fs kfuel cwd (realpathV sys fuel cwdS x) true = some (comps (realpathV sys fuel cwdS x)) := by
+    intro x hx
+    obtain ⟨k, hk1, hform, hclean⟩ := abspath_absStr cwdS
+      (joinRealV sys fuel (if isabs x then ['/'] else [])
+        (splitSep (if isabs x then x.tail else x)) []).1 hcwd
+    have hrp : realpathV sys fuel cwdS x = abspath cwdS
+      (joinRealV sys fuel (if isabs x then ['/'] else [])
+        (splitSep (if isabs x then x.tail else x)) []).1 := rfl
+    rw [← hrp] at hform hclean
+    generalize realpathV sys fuel cwdS x = s at *
+    have hrl : RealLoc fs (comps s) := by
+      refine noLinkPrefix_sound fs kfuel cwd _ hsys.lstat_r k hk1 _ (comps s) rfl hclean (s.length + 1) ?_
+      rw [← hform]; exact hx
+    refine ⟨hrl, ?_⟩
+    have := kresolve_of_realLoc fs kfuel cwd k hk1 (comps s) hrl
+    rwa [← hform] at this
+  obtain ⟨hrl1, hk1⟩ := key _ n1
+  obtain ⟨hrl2, hk2⟩ := key _ n2
+  obtain ⟨lr, hkr, hgr⟩ := statId_ino fs kfuel cwd _ i hsid
+  rw [hk1] at hkr
+  cases hkr
+  have hll : l = comps (realpathV sys fuel cwdS (tensorPath base loc)) := by
+    apply Classical.byContradiction
+    intro hne
+    have := hs l _ i hne hg hgr
+    omega
+  refine ⟨l, hk, hg, hn, by rw [hll]; exact hrl1.1, hll, ?_⟩
+  intro bl hkb hdir
+  have hsb : statId fs kfuel cwd base = some (StatId.dir bl) := by
+    unfold statId; simp [hkb, hdir]
+  rw [hsb] at hcb
+  cases hcb
+  obtain ⟨hkbr, _⟩ := statId_dir fs kfuel cwd _ bl hcbr
+  rw [hk2] at hkbr
+  cases hkbr
+  refine ⟨?_, hrl2.1⟩
+  rw [hll]
+  exact contained_comps _ _ hcont
+
+/-- **C10_eacces_safe**: `C10_blind_safe` for an unprivileged process on a tree with unsearchable
+directories (model `sysA`: PATH_MAX, and EACCES wherever a component is looked up in a directory the
+current uid may not search - `chmod 000` / `0o600` directories on the way make `os.path.realpath` blind
+exactly as ENAMETOOLONG does).  For every assignment `search` of search permissions to directories: when
+the check passes and the open reaches the inode `i`, the open is safe.  The model `readV (sysA ..)` is
+compared with the real code run by a process without privileges (harness family eacces). -/
+theorem C10_eacces_safe (fs : FS) (search : Loc → Bool) (kfuel fuel : Nat) (cwdS : Str) (cwd : Loc)
+    (base loc : Str) (i : Nat) (reg : Bool) (hs : LinkCountSound fs) (hcwd : isabs cwdS = true)
+    (hv : checkContainmentV (sysA fs search kfuel cwd) fuel cwdS base loc = Verdict.pass) (hb : base ≠ [])
+    (ho : (sysA fs search kfuel cwd).openF (tensorPath base loc) = some (i, reg)) :
+    ∃ l, kresolve fs kfuel cwd (tensorPath base loc) true = some l ∧ fs.get l = some (Node.file i) ∧
+      fs.nlink i ≤ 1 ∧ Chain fs l ∧
+      l = comps (realpathV (sysA fs search kfuel cwd) fuel cwdS (tensorPath base loc)) ∧
+      (∀ bl, kresolve fs kfuel cwd base true = some bl → fs.get bl = some Node.dir →
+        bl <+: l ∧ Chain fs bl) :=
+  C10_blind_safe fs kfuel cwd _ (sysA_ok fs search kfuel cwd) fuel cwdS base loc i reg hs hcwd hv hb ho
+
+end IrVerif.Path
+
+/-! ### bytes provenance in histories with `os.chdir` -/
+namespace IrVerif.Path
+
+/-- `runMicro_bytes` for histories with `os.chdir`: the provenance of returned bytes does not depend on
+the working directories the calls were made in (stated on the log without them) -/
+theorem runMicroC_bytes (kfuel fuel : Nat) (ps : Nat → TensorP) :
+    ∀ (mops : List CMOp) (cwdS : Str) (w : World) (P : Nat → BaseVal → Nat → Prop),
+      (∀ t i, (w.ts t).st.raw = some i → P t (w.ts t).base i) →
+      ∀ (pre : List WLog) (e : WLog) (post : List WLog),
+        (runMicroC kfuel fuel ps cwdS w mops).map Prod.snd = pre ++ e :: post →
+        ∀ bytes, e.res = ReadResult.ok bytes →
+          (bytes = [] ∧ (ps e.t).zero = true ∧ e.ep ≠ EntryPoint.tofile) ∨
+          ∃ i, bytes = sliceOf (e.fs.data i) (ps e.t).offset (ps e.t).length ∧
+            (P e.t e.base i ∨ ∃ e' ∈ pre ++ [e], e'.t = e.t ∧ e'.base = e.base ∧
+              Ev.openEv (tensorPath e.base.s (ps e.t).loc) (some i) ∈ e'.events) := by
+  intro mops
+  induction mops with
+  | nil =>
+    intro cwdS w P _ pre e post hlog
+    simp [runMicroC] at hlog
+  | cons x xs ih =>
+    intro cwdS w P hP pre e post hlog bytes hb
+    cases x with
+    | chdir c =>
+      simp only [runMicroC] at hlog
+      exact ih c w P hP pre e post hlog bytes hb
+    | m y =>
+      cases y with
+      | setFS fs =>
+        simp only [runMicroC, stepWorld] at hlog
+        exact ih cwdS { w with fs := fs } P hP pre e post hlog bytes hb
+      | beginLoad =>
+        simp only [runMicroC, stepWorld] at hlog
+        exact ih cwdS { w with aborted := false } P hP pre e post hlog bytes hb
+      | rebase t b =>
+        simp only [runMicroC, stepWorld] at hlog
+        refine ih cwdS (w.set t ((w.ts t).rebase b)) P ?_ pre e post hlog bytes hb
+        intro t' i hi
+        simp only [World.set] at hi ⊢
+        by_cases htt : t' = t
+        · subst htt
+          simp only [if_true, TSess.rebase] at hi ⊢
+          by_cases hbe : b = (w.ts t').base
+          · simp only [hbe, if_true] at hi
+            rw [hbe]; exact hP t' i hi
+          · simp [hbe, TState.fresh] at hi
+        · simp only [htt, if_false] at hi ⊢
+          exact hP t' i hi
+      | release t =>
+        simp only [runMicroC, stepWorld] at hlog
+        refine ih cwdS (w.set t { (w.ts t) with st := TState.fresh }) P ?_ pre e post hlog bytes hb
+        intro t' i hi
+        simp only [World.set] at hi ⊢
+        by_cases htt : t' = t
+        · subst htt
+          simp [TState.fresh] at hi
+        · simp only [htt, if_false] at hi ⊢
+          exact hP t' i hi
+      | call t ep =>
+        simp only [runMicroC, stepWorld, List.map_cons] at hlog
+        have := runMicro_bytes_step kfuel fuel cwdS (comps cwdS) ps
+          (fun w P log => (∀ t i, (w.ts t).st.raw = some i → P t (w.ts t).base i) →
+            ∀ (pre : List WLog) (e : WLog) (post : List WLog), log = pre ++ e :: post →
+            ∀ bytes, e.res = ReadResult.ok bytes →
+              (bytes = [] ∧ (ps e.t).zero = true ∧ e.ep ≠ EntryPoint.tofile) ∨
+              ∃ i, bytes = sliceOf (e.fs.data i) (ps e.t).offset (ps e.t).length ∧
+                (P e.t e.base i ∨ ∃ e' ∈ pre ++ [e], e'.t = e.t ∧ e'.base = e.base ∧
+                  Ev.openEv (tensorPath e.base.s (ps e.t).loc) (some i) ∈ e'.events))
+          (fun _ _ _ => Iff.rfl) w
+          (w.set t { (w.ts t) with st := (callT w.fs kfuel fuel cwdS (comps cwdS) (ps t) (w.ts t).base ep (w.ts t).st).2.2 })
+          t ep _ rfl (fun P' hP' pre' e' post' hl' => ih cwdS _ P' hP' pre' e' post' hl') P
+        exact this hP pre e post hlog bytes hb
+      | loadOne t =>
+        by_cases hab : w.aborted = true
+        · simp only [runMicroC, stepWorld, hab, if_true] at hlog
+          exact ih cwdS w P hP pre e post hlog bytes hb
+        · simp only [runMicroC, stepWorld, hab, Bool.false_eq_true, if_false, List.map_cons] at hlog
+          have := runMicro_bytes_step kfuel fuel cwdS (comps cwdS) ps
+            (fun w P log => (∀ t i, (w.ts t).st.raw = some i → P t (w.ts t).base i) →
+              ∀ (pre : List WLog) (e : WLog) (post : List WLog), log = pre ++ e :: post →
+              ∀ bytes, e.res = ReadResult.ok bytes →
+                (bytes = [] ∧ (ps e.t).zero = true ∧ e.ep ≠ EntryPoint.tofile) ∨
+                ∃ i, bytes = sliceOf (e.fs.data i) (ps e.t).offset (ps e.t).length ∧
+                  (P e.t e.base i ∨ ∃ e' ∈ pre ++ [e], e'.t = e.t ∧ e'.base = e.base ∧
+                    Ev.openEv (tensorPath e.base.s (ps e.t).loc) (some i) ∈ e'.events))
+            (fun _ _ _ => Iff.rfl) w
+            { (w.set t { (w.ts t) with st := (callT w.fs kfuel fuel cwdS (comps cwdS) (ps t) (w.ts t).base
+                EntryPoint.serializeRaw (w.ts t).st).2.2 }) with
+              aborted := decide ((callT w.fs kfuel fuel cwdS (comps cwdS) (ps t) (w.ts t).base
+                EntryPoint.serializeRaw (w.ts t).st).1 = ReadResult.raised) }
+            t EntryPoint.serializeRaw _ rfl
+            (fun P' hP' pre' e' post' hl' => ih cwdS _ P' hP' pre' e' post' hl') P
+          exact this hP pre e post hlog bytes hb
+
+/-- **C10_world_chdir_safe** (supersedes the bytes-provenance half of `C10_world_safe` for histories with
+`os.chdir`, and contains `C10_world_chdir_opens`): for every history of public operations and changes of
+the working directory, starting with nothing mapped, and for every call `e` in the log, made in the
+working directory `c` (`pre` = the calls before it, each with the directory it was made in):
+(1) every file `e` opens is opened under a base directory that is not a `bytes` object and, when the
+    base directory is non-empty and `c` names a chain of real directories, is a safe open with respect
+    to the tree, the base directory value and the working directory `c` of that call;
+(2) the bytes `e` returns are either none at all (zero-size tensor, entry point other than `tofile`), or
+    the slice of an inode opened by `e` itself or by an EARLIER call `e'` ON THE SAME TENSOR under the
+    SAME base directory value; that open was a safe open with respect to that base directory value in
+    the tree AND THE WORKING DIRECTORY `c'` OF THE CALL THAT MADE IT.  So with a relative base directory
+    and a chdir between `e'` and `e` the bytes are those of a file inside what the base directory named
+    when the mapping was made - by design a change of directory, like a change of the tree, does not
+    drop a mapping - and never of a file that was outside the base directory as it resolved at the
+    time of the open. -/
+theorem C10_world_chdir_safe (kfuel fuel : Nat) (hfuel : kfuel ≤ fuel) (ps : Nat → TensorP)
+    (cwd0 : Str) (w0 : World) (h0 : ∀ t, (w0.ts t).st.raw = none) (ops : List COp)
+    (pre : List (Str × WLog)) (c : Str) (e : WLog) (post : List (Str × WLog))
+    (hlog : runWorldC kfuel fuel ps cwd0 w0 ops = pre ++ (c, e) :: post) :
+    (∀ q i, Ev.openEv q (some i) ∈ e.events →
+      e.base.kind ≠ BaseKind.bytes ∧ ((ps e.t).zero = true → e.ep = EntryPoint.tofile) ∧
+      (e.base.s ≠ [] → RealDir e.fs (comps c) → render (comps c) = c →
+        q = tensorPath e.base.s (ps e.t).loc ∧ SafeOpen e.fs kfuel fuel (comps c) e.base.s (ps e.t).loc i)) ∧
+    (∀ bytes, e.res = ReadResult.ok bytes →
+      (bytes = [] ∧ (ps e.t).zero = true ∧ e.ep ≠ EntryPoint.tofile) ∨
+      ∃ i, bytes = sliceOf (e.fs.data i) (ps e.t).offset (ps e.t).length ∧
+        ∃ ce' ∈ pre ++ [(c, e)], ce'.2.t = e.t ∧ ce'.2.base = e.base ∧
+          Ev.openEv (tensorPath e.base.s (ps e.t).loc) (some i) ∈ ce'.2.events ∧
+          (e.base.s ≠ [] → RealDir ce'.2.fs (comps ce'.1) → render (comps ce'.1) = ce'.1 →
+            SafeOpen ce'.2.fs kfuel fuel (comps ce'.1) e.base.s (ps e.t).loc i)) := by
+  have hmemAll : ∀ x ∈ pre ++ [(c, e)], x ∈ runWorldC kfuel fuel ps cwd0 w0 ops := by
+    intro x hx
+    rw [hlog]
+    rcases List.mem_append.mp hx with h | h
+    · exact List.mem_append.mpr (Or.inl h)
+    · have : x = (c, e) := by simpa using h
+      subst this
+      simp
+  refine ⟨fun q i hq => C10_world_chdir_opens kfuel fuel hfuel ps cwd0 w0 ops c e
+    (hmemAll _ (by simp)) q i hq, ?_⟩
+  intro bytes hb
+  have hmap : (runMicroC kfuel fuel ps cwd0 w0 (expandAllC ops)).map Prod.snd =
+      pre.map Prod.snd ++ e :: post.map Prod.snd := by
+    unfold runWorldC at hlog
+    rw [hlog]; simp
+  rcases runMicroC_bytes kfuel fuel ps _ cwd0 w0 (fun _ _ _ => False)
+    (by intro t i h; rw [h0 t] at h; exact absurd h (by simp)) _ e _ hmap bytes hb with hz | ⟨i, hi, hor⟩
+  · exact Or.inl hz
+  · refine Or.inr ⟨i, hi, ?_⟩
+    rcases hor with hf | ⟨e', he', ht, hbase, hev⟩
+    · exact absurd hf id
+    · -- lift e' back to the entry with its working directory
+      obtain ⟨ce', hce', hsnd⟩ : ∃ ce' ∈ pre ++ [(c, e)], ce'.2 = e' := by
+        rcases List.mem_append.mp he' with h | h
+        · obtain ⟨x, hx, hxe⟩ := List.mem_map.mp h
+          exact ⟨x, List.mem_append.mpr (Or.inl hx), hxe⟩
+        · have : e' = e := by simpa using h
+          exact ⟨(c, e), by simp, this.symm⟩
+      subst hsnd
+      refine ⟨ce', hce', ht, hbase, hev, ?_⟩
+      intro hne hrd hrender
+      have := (C10_world_chdir_opens kfuel fuel hfuel ps cwd0 w0 ops ce'.1 ce'.2
+        (hmemAll ce' hce') (tensorPath e.base.s (ps e.t).loc) i hev).2.2
+        (by rw [hbase]; exact hne) hrd hrender
+      rw [ht, hbase] at this
+      exact this.2
+
+end IrVerif.Path
+
+/-! ### non-vacuity of the fail-closed theorems: on exFS the repaired check passes and the file is opened -/
+namespace IrVerif.Path
+
+theorem exFS_short (l : Loc) (h : (render l).length < PATH_MAX) (p : Str) (hp : p = render l) :
+    lstatP exFS 40 [] p = lstat exFS 40 [] p := by
+  subst hp
+  unfold lstatP
+  rw [if_neg (by omega)]
+
+/-- on exFS (cwd "/", base "/b", location "f") the check over the PATH_MAX system calls passes and the
+open reaches inode 1: hypotheses `hv`, `ho` of `C10_blind_safe` / `C10_pathmax_safe_full` hold together -/
+theorem exV_pass :
+    checkContainmentV (sysP exFS 40 []) 40 (render []) "/b".toList "f".toList = Verdict.pass ∧
+    (sysP exFS 40 []).openF (tensorPath "/b".toList "f".toList) = some (1, true) := by
+  have hk : kresolve exFS 40 [] "/b/f".toList true = some [['b'], ['f']] :=
+    kresolve_render exFS 40 [] _ exFS_bf (Node.file 1) (by decide) (by intro t; simp)
+  have hkb : kresolve exFS 40 [] "/b".toList true = some [['b']] :=
+    kresolve_render exFS 40 [] _ exFS_b.1 Node.dir (by decide) (by intro t; simp)
+  have hp : tensorPath "/b".toList "f".toList = render [['b'], ['f']] := by decide
+  have hbs : "/b".toList = render [['b']] := by decide
+  have l1 : (sysP exFS 40 []).lstat (render [['b']]) = some Node.dir := by
+    rw [sysP_lstat, exFS_short [['b']] (by decide) _ rfl]
+    have := lstat_render_snoc exFS 40 [] [] ['b'] (RealDir.root exFS) ⟨by decide, by decide, by decide, by decide⟩
+    simp only [List.nil_append] at this
+    rw [this]; decide
+  have l2 : (sysP exFS 40 []).lstat (render [['b'], ['f']]) = some (Node.file 1) := by
+    rw [sysP_lstat, exFS_short [['b'], ['f']] (by decide) _ rfl]
+    have := lstat_render_snoc exFS 40 [] [['b']] ['f'] exFS_b ⟨by decide, by decide, by decide, by decide⟩
+    simp only [List.cons_append, List.nil_append] at this
+    rw [this]; decide
+  have r1 : realpathV (sysP exFS 40 []) 40 (render []) (render [['b'], ['f']]) = render [['b'], ['f']] := by
+    refine realpathV_render _ 40 _ exFS_bf.1 ?_
+    intro k hk t
+    have : k = 0 ∨ k = 1 := by simp at hk; omega
+    rcases this with rfl | rfl
+    · simp only [Nat.zero_add, List.take_succ_cons, List.take_zero]; rw [l1]; simp
+    · simp only [List.take_succ_cons, List.take_zero]; rw [l2]; simp
+  have r2 : realpathV (sysP exFS 40 []) 40 (render []) (render [['b']]) = render [['b']] := by
+    refine realpathV_render _ 40 _ exFS_b.1.1 ?_
+    intro k hk t
+    have : k = 0 := by simp at hk; omega
+    subst this
+    simp only [Nat.zero_add, List.take_succ_cons, List.take_zero]; rw [l1]; simp
+  have n1 : noLinkOn (sysP exFS 40 []).lstat (render [['b'], ['f']]) = true :=
+    noLinkOn_complete' exFS 40 [] _ _ ⟨exFS_bf, Node.file 1, by decide, by intro t; simp⟩
+      (by
+        intro j hj
+        have hle : (render (List.take j [['b'], ['f']])).length < PATH_MAX := by
+          have : j = 0 ∨ j = 1 ∨ j = 2 := by simp at hj; omega
+          rcases this with rfl | rfl | rfl <;> decide
+        rw [sysP_lstat, exFS_short _ hle _ rfl])
+  have n2 : noLinkOn (sysP exFS 40 []).lstat (render [['b']]) = true :=
+    noLinkOn_complete' exFS 40 [] _ _ ⟨exFS_b.1, Node.dir, by decide, by intro t; simp⟩
+      (by
+        intro j hj
+        have hle : (render (List.take j [['b']])).length < PATH_MAX := by
+          have : j = 0 ∨ j = 1 := by simp at hj; omega
+          rcases this with rfl | rfl <;> decide
+        rw [sysP_lstat, exFS_short _ hle _ rfl])
+  have e1 : kresolve exFS 40 [] (render [['b'], ['f']]) true = some [['b'], ['f']] := hk
+  have e2 : kresolve exFS 40 [] (render [['b']]) true = some [['b']] := hkb
+  have s1 : (sysP exFS 40 []).statFile (render [['b'], ['f']]) = some (1, true) := by
+    simp only [sysP, statFileP, statFile]
+    rw [if_neg (by decide), e1]; decide
+  have i1 : (sysP exFS 40 []).statId (render [['b'], ['f']]) = some (StatId.ino 1) := by
+    simp only [sysP, statIdP, statId]
+    rw [if_neg (by decide), e1]; decide
+  have i2 : (sysP exFS 40 []).statId (render [['b']]) = some (StatId.dir [['b']]) := by
+    simp only [sysP, statIdP, statId]
+    rw [if_neg (by decide), e2]; decide
+  refine ⟨?_, ?_⟩
+  · unfold checkContainmentV
+    rw [hp, hbs, r1, r2, r1, r2, s1, i1, i2, n1, n2]
+    have c1 : check1 (render []) (render [['b']]) "f".toList = true := by decide
+    have cn : contained (render [['b']]) (render [['b'], ['f']]) = true := by decide
+    have hn : (hasNul (render [['b']]) || hasNul "f".toList) = false := by decide
+    rw [if_neg (by decide), if_neg (by rw [c1]; simp), if_neg (by rw [hn]; simp), if_neg (by rw [cn]; simp)]
+    decide
+  · rw [hp]
+    simp only [sysP, openFile]
+    rw [if_neg (by decide), e1]; decide
+
+/-- `C10_blind_safe`, `C10_pathmax_safe_full` are not vacuous: every hypothesis holds on exFS (sound link
+counts for the inode that is opened, an absolute working directory, a passing check, a successful open) -/
+example : isabs (render []) = true ∧
+    checkContainmentP exFS 40 40 (render []) [] "/b".toList "f".toList = Verdict.pass ∧
+    openFile exFS 40 [] (tensorPath "/b".toList "f".toList) = some (1, true) ∧
+    SysOK exFS 40 [] (sysP exFS 40 []) ∧ "/b".toList ≠ [] := by
+  refine ⟨by decide, ?_, exV_pass.2, sysP_ok exFS 40 [], by decide⟩
+  rw [checkContainmentP_eq_V]; exact exV_pass.1
+
+/-- `C10_eacces_safe` is not vacuous in its permission argument: with every directory searchable the
+unprivileged system calls agree with the PATH_MAX ones on the strings of the example, and with the base
+directory unsearchable the open of the tensor's path fails (EACCES) -/
+example : (sysA exFS (fun l => l != [['b']]) 40 []).openF "/b/f".toList = none := by
+  simp only [sysA, kresolveA]
+  have e : splitSep "/b/f".toList = [[], ['b'], ['f']] := by decide
+  have e3 : startLoc [] "/b/f".toList = [] := by decide
+  rw [if_neg (by decide), e, e3]
+  rw [walkA]; simp only [exFS.get_root, if_true]
+  rw [walkA]
+  have hb : exFS.get [] = some Node.dir := exFS.get_root
+  have h1 : (['b'] : Str) ≠ [] := by decide
+  have h2 : (['b'] : Str) ≠ DOT := by decide
+  have h3 : (['b'] : Str) ≠ DOTDOT := by decide
+  have hg : exFS.get ([] ++ [['b']]) = some Node.dir := exFS_b.2
+  simp only [hb, h1, h2, h3, if_false, hg]
+  have hs : ((fun l : Loc => l != [['b']]) [] = false) = False := by decide
+  simp only [hs, if_false]
+  rw [walkA]
+  simp only [hg]
+  have h1' : (['f'] : Str) ≠ [] := by decide
+  simp only [h1', if_false]
+  have hs2 : ((fun l : Loc => l != [['b']]) ([] ++ [['b']]) = false) = True := by decide
+  simp only [hs2, if_true]
+
+/-- `C10_world_chdir_safe` is not vacuous: a history with an `os.chdir` whose log has an entry that
+returns bytes -/
+example : ∃ pre c e post,
+    runWorldC 40 40 (fun _ => { loc := "f".toList, offset := 0, length := 3, zero := false }) "/nowhere".toList
+      { fs := exFS, ts := fun _ => { base := { kind := BaseKind.str, s := [] }, st := TState.fresh },
+        aborted := false }
+      [COp.op (WOp.setBaseDir [0] { kind := BaseKind.pathlike, s := "/b".toList }), COp.chdir (render []),
+       COp.op (WOp.loadToModel [0])] = pre ++ (c, e) :: post ∧
+    e.res = ReadResult.ok [10, 20, 30] := by
+  refine ⟨[], _, _, _, rfl, ?_⟩
+  have := ex_read EntryPoint.serializeRaw
+  unfold read at this
+  have hc : comps (render []) = [] := by decide
+  simpa [callT, stepWorld, World.set, TSess.rebase, TState.fresh, hc] using this
 
 end IrVerif.Path
